@@ -29,7 +29,7 @@ from .hashlist import (
     MHLTool,
 )
 from .ignore import MHLIgnoreSpec
-from .utils import datetime_isostring, convert_local_path_to_posix, convert_posix_to_local_path
+from .utils import datetime_isostring, convert_local_path_to_posix, convert_posix_to_local_path, NamelessByteStream
 
 
 def parse(file_path):
@@ -48,7 +48,7 @@ def parse(file_path):
     # pass a file handle to iterparse instead of the path directly to support the fake filesystem used in the tests
     file = open(file_path, "rb")
     existing_ignore_patterns = []
-    for event, element in etree.iterparse(file, events=("start", "end")):
+    for event, element in etree.iterparse(NamelessByteStream(file), events=("start", "end")):
         # check if we need to create a new container
         if event == "start":
             # the tag might contain the namespace like {urn:ASC:MHL:v2.0}hash, so we need to strip the namespace part
